@@ -37,6 +37,7 @@ pub fn exec(verb: &str, items: &[Sexp], o: &mut Oracle) -> Option<String> {
         "ur" => Some(ur(items, o).unwrap_or_else(|| "bad-request".into())),
         "a" => Some(av(items, o).unwrap_or_else(|| "bad-request".into())),
         "se" | "sr" | "s" | "sm" | "ax" | "axw" => Some(c03(verb, items, o).unwrap_or_else(|| "bad-request".into())),
+        "axm" => Some(axm(items, o).unwrap_or_else(|| "bad-request".into())),
         _ => None,
     }
 }
@@ -587,6 +588,89 @@ pub fn ref_encode(proto: Proto, v: &Val, ch: &mut Choices) -> Vec<u8> {
 
 fn app_kind(k: i32) -> ApplicationExceptionKind { ApplicationExceptionKind::from(k) }
 
+/// `axm <proto> <bm|lb1> <msg-hex> <kind> <outer-id|->`: the runtime's own `Message` impl (`ApplicationException`) through the
+/// protocol's `Message`-level entry points: `size`, `encode`, `decode`, `decode_async`; with an outer id, nested as field `id`
+/// of a struct `{1: i32 7, id: <exception>, id+1: i64 9}` through the `*_field` helpers (`struct_field_len`, `write_struct_field`).
+/// Oracle: reported size = bytes written (C04); the bytes are the encoding of the equivalent value (C03); the exception reads
+/// back, in memory and from a stream (C01, C12).  Answer: `ok <bytes> size=<n>`.
+fn axm(items: &[Sexp], o: &mut Oracle) -> Option<String> {
+    use pilota::thrift::{TLengthProtocolExt, TOutputProtocolExt};
+    let proto = Proto::of(items.get(1)?.atom()?)?;
+    if proto == Proto::UBin { return None; }
+    let buf = BufK::of(items.get(2)?.atom()?)?;
+    let msg = unhex(items.get(3)?.atom()?)?;
+    let kind: i32 = items.get(4)?.atom()?.parse().ok()?;
+    let oid: Option<i16> = match items.get(5)?.atom()? { "-" => None, x => Some(x.parse().ok()?) };
+    let ex = ApplicationException::new(app_kind(kind), unsafe { faststr::FastStr::from_bytes_unchecked(Bytes::copy_from_slice(&msg)) });
+    fn run<P: TOutputProtocol + TLengthProtocol>(p: &mut P, ex: &ApplicationException, oid: Option<i16>) -> Result<usize, ThriftException> {
+        match oid {
+            None => { let n = ex.size(p); ex.encode(p)?; Ok(n) }
+            Some(id) => {
+                let n = p.struct_begin_len(&thrift::IDENT) + p.i32_field_len(Some(1), 7) + p.struct_field_len(Some(id), ex) + p.i64_field_len(Some(id + 1), 9)
+                    + p.field_stop_len() + p.struct_end_len();
+                p.write_struct_begin(&thrift::IDENT)?;
+                p.write_i32_field(1, 7)?;
+                p.write_struct_field(id, ex, TType::Struct)?;
+                p.write_i64_field(id + 1, 9)?;
+                p.write_field_stop()?;
+                p.write_struct_end()?;
+                Ok(n)
+            }
+        }
+    }
+    let zc = buf.zc();
+    let (r, bytes) = if matches!(buf, BufK::Bm | BufK::Bm1) {
+        let mut b = BytesMut::new();
+        let r = match proto {
+            Proto::Bin => { let mut p = TBinaryProtocol::new(&mut b, zc); run(&mut p, &ex, oid) }
+            Proto::Le => { let mut p = TBinaryLeProtocol::new(&mut b, zc); run(&mut p, &ex, oid) }
+            _ => { let mut p = pilota::thrift::compact::TCompactOutputProtocol::new(&mut b, zc); run(&mut p, &ex, oid) }
+        };
+        (r, b.to_vec())
+    } else {
+        let mut lb = LinkedBytes::new();
+        let r = match proto {
+            Proto::Bin => { let mut p = TBinaryProtocol::new(&mut lb, zc); run(&mut p, &ex, oid) }
+            Proto::Le => { let mut p = TBinaryLeProtocol::new(&mut lb, zc); run(&mut p, &ex, oid) }
+            _ => { let mut p = pilota::thrift::compact::TCompactOutputProtocol::new(&mut lb, zc); run(&mut p, &ex, oid) }
+        };
+        let mut out = Vec::new();
+        lb.sync_write_all_vectored(&mut out).ok()?;
+        (r, out)
+    };
+    let size = match r { Ok(n) => n, Err(e) => return Some(err_class(&e).into()) };
+    if size != bytes.len() { o.fail("C04", format!("ApplicationException {}: size {} != {} bytes written", if oid.is_some() { "as a struct field" } else { "at top level" }, size, bytes.len())); }
+    let exv = Val::Struct(vec![(1, Val::Bin(msg.clone())), (2, Val::I32(kind))]);
+    let want = match oid { None => exv.clone(), Some(id) => Val::Struct(vec![(1, Val::I32(7)), (id, exv.clone()), (id + 1, Val::I64(9))]) };
+    match thrift::write_all(proto, BufK::Bm, StrApi::Bytes, &[want.clone()]) {
+        Ok(w) => if w.bytes != bytes { o.fail("C01,C03,C04", format!("ApplicationException bytes {} differ from the encoding of the equivalent value {}", hex(&bytes), hex(&w.bytes))); },
+        Err(_) => {}
+    }
+    // read back: the whole thing as a value, and (top level) through the exception's own decode, in memory and from a stream
+    let rb = thrift::read_script(proto, &bytes, &[ReadStep::Read(TT::Struct)]);
+    let want_s = if proto == Proto::Cmp { want.norm_compact().sexp() } else { want.sexp() };
+    if rb.err.is_some() || rb.items.first() != Some(&want_s) || rb.rem != 0 { o.fail("C01", format!("ApplicationException bytes read back as {:?} {:?} rem={}", rb.err, rb.items, rb.rem)); }
+    if oid.is_none() {
+        let mut b = Bytes::copy_from_slice(&bytes);
+        let d = match proto {
+            Proto::Bin => { let mut p = TBinaryProtocol::new(&mut b, false); ApplicationException::decode(&mut p) }
+            Proto::Le => { let mut p = TBinaryLeProtocol::new(&mut b, false); ApplicationException::decode(&mut p) }
+            _ => { let mut p = TCompactInputProtocol::new(&mut b); ApplicationException::decode(&mut p) }
+        };
+        match d { Ok(e2) if e2.message().as_bytes() == &msg[..] && e2.kind().as_i32() == kind && b.is_empty() => {}
+                  other => o.fail("C01", format!("ApplicationException decode(encode x): {:?} rem={}", other.map(|e| (hex(e.message().as_bytes()), e.kind().as_i32())).map_err(|e| e.to_string()), b.len())) }
+        let mut rd = Scripted { events: vec![Ev::Data(bytes[..bytes.len() / 2].to_vec()), Ev::Pending, Ev::Data(bytes[bytes.len() / 2..].to_vec())].into_iter().filter(|e| !matches!(e, Ev::Data(d) if d.is_empty())).collect(), pulled: 0 };
+        let a = match proto {
+            Proto::Bin => { let mut p = TAsyncBinaryProtocol::new(&mut rd); block_on(ApplicationException::decode_async(&mut p)) }
+            Proto::Le => { let mut p = TAsyncBinaryLeProtocol::new(&mut rd); block_on(ApplicationException::decode_async(&mut p)) }
+            _ => { let mut p = TAsyncCompactProtocol::new(&mut rd); block_on(ApplicationException::decode_async(&mut p)) }
+        };
+        match a { Ok(e2) if e2.message().as_bytes() == &msg[..] && e2.kind().as_i32() == kind && rd.pulled == bytes.len() => {}
+                  other => o.fail("C01,C12", format!("ApplicationException decode_async(encode x): {:?} pulled={} of {}", other.map(|e| (hex(e.message().as_bytes()), e.kind().as_i32())).map_err(|e| e.to_string()), rd.pulled, bytes.len())) }
+    }
+    Some(format!("ok {} size={}", hex(&bytes), size))
+}
+
 fn c03(verb: &str, items: &[Sexp], o: &mut Oracle) -> Option<String> {
     let proto = Proto::of(items.get(1)?.atom()?)?;
     if proto == Proto::UBin { return None; }
@@ -867,7 +951,7 @@ fn gen_c03(r: &mut Rng, thorough: bool, out: &mut dyn Write) {
                 if seen.contains(&b) { continue; }
                 let _ = writeln!(out, "sr {} {} {}", p.name(), v.sexp(), hex(&b));
                 // a reader that knows all fields but one: reference bytes, field k skipped, the others read (thrift2's `skfx`)
-                if let Val::Struct(fs) = v { if fs.len() <= 12 { for k in 0..fs.len() { let _ = writeln!(out, "skfx {} {} {} {}", p.name(), v.sexp(), k, hex(&b)); } } }
+                if let Val::Struct(fs) = v { if fs.len() <= 12 && v.depth() <= 60 { for k in 0..fs.len() { let _ = writeln!(out, "skfx {} {} {} {}", p.name(), v.sexp(), k, hex(&b)); } } }
                 seen.push(b);
             }
         }
@@ -887,6 +971,12 @@ fn gen_c03(r: &mut Rng, thorough: bool, out: &mut dyn Write) {
         Val::Bin(vec![]), Val::Bin(vec![0; 127]), Val::Bin(vec![0x61; 128]), Val::Bin(vec![0x7a; 16384]),
     ];
     for v in &fixed { emit_val(out, r, v, 6); }
+    // deep chains with a sibling after the nested struct at every level (the field-id context must come back at every depth)
+    for d in [3usize, 23, 24, 25, 40, 70] {
+        let mut v = Val::Struct(vec![(1, Val::I8(1)), (2, Val::Bool(true))]);
+        for k in 0..d { v = Val::Struct(vec![(1, Val::I8(k as i8)), (2, v), (3, Val::I16(7)), (4, Val::Bool(k % 2 == 0))]); }
+        emit_val(out, r, &v, 1);
+    }
     for k in [0usize, 1, 14, 15, 16, 127, 128, 300] {
         emit_val(out, r, &Val::List(TT::I8, (0..k).map(|i| Val::I8(i as i8)).collect()), 0);
         emit_val(out, r, &Val::Set(TT::Bool, (0..k).map(|i| Val::Bool(i % 3 == 0)).collect()), 2);
@@ -995,6 +1085,16 @@ pub fn gen(stream: &str, tier: &str, seed: u64, out: &mut dyn Write) -> bool {
             // nesting ladders and empty things
             for d in [1usize, 9, 40] { for b in bufs { emit_uw(out, b, "b", 0, 0, &None, &[gen::ladder(d, d)], 0); } }
             for b in bufs { emit_uw(out, b, "b", 0, 0, &None, &[], 0); emit_uw(out, b, "b", 0, 0, &None, &[Val::Struct(vec![])], 0); }
+            // every header kind as the LAST thing written into an exact-size window: empty containers, one-byte elements
+            for b in bufs {
+                let lasts = [Val::Map(TT::I32, TT::Binary, vec![]), Val::List(TT::I64, vec![]), Val::Set(TT::Binary, vec![]), Val::Map(TT::Bool, TT::I8, vec![(Val::Bool(true), Val::I8(1))]),
+                             Val::List(TT::Bool, vec![Val::Bool(true)]), Val::Set(TT::I8, vec![Val::I8(5)]), Val::Struct(vec![]), Val::Bool(false), Val::Bin(vec![]), Val::I16(1)];
+                for l in &lasts {
+                    emit_uw(out, b, "b", 0, 0, &None, &[l.clone()], 0);
+                    emit_uw(out, b, "b", 0, 0, &None, &[Val::Struct(vec![(1, Val::I32(7)), (2, l.clone())])], 0);
+                    emit_uw(out, b, "b", 0, 0, &None, &[Val::Struct(vec![(1, Val::Struct(vec![(3, l.clone())]))])], 0);
+                }
+            }
             // ---- random
             for _ in 0..n(220, 6000) {
                 let k = 1 + r.below(3) as usize;
